@@ -74,6 +74,10 @@ CHECKS["C07"] = dict(level="exploration", ref="DESIGN.md §5 C07",
    technique="model-based generated container histories with lookup and query probes after every step; brute-force query oracle over the reference model using parent chains derived from the class MRO (independent of the TOC), result sets compared in both directions; exact/ancestor lookups compared with Ancestor.parse(stored)",
    text="Generated search over histories x (schema, version, start node) probes incl. lower/higher minor and other major versions of stored schemas and their ancestors; full probe battery after a final reopen. Multi-version unversioned lookups that the documentation lists as a limitation are counted as excluded.",
    note=TB + "; harness schema family verif.* is discovered through real entry points (/verif/fakepkg)")
+CHECKS["C20"] = dict(level="exploration", ref="DESIGN.md §5 C20",
+   technique="generated container histories; independent validator: every stored object (found by the raw-tree auditor) is validated with jsonschema Draft-07 against the JSON Schema embedded in the container; embedded parent chains / provider records compared with the plugin system and with the container's public TOC answers, live and after reopen",
+   text="Generated search; validity is decided by an independent JSON Schema implementation, the description data by differential comparison embedded-vs-plugin-system-vs-public-API. Bounded history length; schema pool of 11 accesses incl. a harness family with several versions and 3-level inheritance.",
+   note=TB + "; jsonschema 4.26 (Draft7Validator) is trusted")
 NOT_YET = {}
 def main():
     props = [json.loads(l) for l in open(os.path.join(HERE, "properties.jsonl"))]
